@@ -60,9 +60,19 @@ pub fn gen_policies(t: &mut Tape, n: usize, cx: &rm::Ctx<'_>, cond_depth: usize)
         };
         let linked = t.bool_p(1, 4);
         let mut best: Option<GP> = None;
-        for _try in 0..4 {
+        for _try in 0..6 {
             let slots = if linked { 1 + t.upto(3) as u8 } else { 0 };
-            let src = u::gen_policy(t, slots, cond_depth);
+            let mut src = u::gen_policy(t, slots, cond_depth);
+            if want != Outcome::Unsat && t.bool_p(2, 3) {
+                // a wide scope, so that the outcome is decided by the conditions
+                if slots & 1 == 0 {
+                    src.principal = rm::policy::PrC::Any;
+                }
+                if slots & 2 == 0 {
+                    src.resource = rm::policy::PrC::Any;
+                }
+                src.action = rm::policy::ActC::Any;
+            }
             let pb = if slots & 1 != 0 { Some(if t.bool_p(1, 2) { cx.req.principal.clone() } else { u::gen_uid(t) }) } else { None };
             let rb = if slots & 2 != 0 { Some(if t.bool_p(1, 2) { cx.req.resource.clone() } else { u::gen_uid(t) }) } else { None };
             let meaning = src.link(pb.as_ref(), rb.as_ref());
